@@ -55,6 +55,7 @@ type pendingAuto struct {
 	ID       channel.ID
 	Bals     channel.Balances // balances of the funded / settled channel
 	IndexMap []channel.Index  // virtual channel: participant of the virtual channel -> participant of this parent
+	On       channel.ID       // the parent channel the expectation is about (zero: any)
 }
 
 // mScene is the situation at the end of the set-up phase.
@@ -73,6 +74,7 @@ type mScene struct {
 	realFund   *client.ChannelUpdateMsg // M's real funding update (intercepted)
 	realSettle *client.ChannelUpdateMsg
 	subFinal   *channel.State // final state of the sub-channel that is being settled
+	two        bool           // the ledger channels are over two assets
 	holdM      bool           // keep dropping M's own parent updates during the adversarial phase
 	ledMoved   bool           // hub points: the victim accepted a crafted update of its channel with M (the real M did not: no probe there)
 	// hub points: the victim is the hub between M (Alice) and the honest real client B (Bob)
@@ -183,6 +185,42 @@ func mAlloc(asset channel.Asset, bals ...int64) *channel.Allocation {
 	return a
 }
 
+// mAlloc2: an allocation over the two assets fx.Assets[0], fx.Assets[1] (one row per asset).
+func mAlloc2(rows ...[]int64) *channel.Allocation {
+	a := &channel.Allocation{}
+	for i, r := range rows {
+		a.Assets = append(a.Assets, fx.Assets[i])
+		a.Backends = append(a.Backends, 0)
+		row := make([]channel.Bal, len(r))
+		for j, v := range r {
+			row[j] = big.NewInt(v)
+		}
+		a.Balances = append(a.Balances, row)
+	}
+	return a
+}
+
+// openLedger2 is World.OpenLedger for a channel over two assets, 10:10 each.
+func (sc *mScene) openLedger2(a, b int) (*client.Channel, *client.Channel, error) {
+	w := sc.w
+	prop, err := client.NewLedgerChannelProposal(60, w.P[a].Addr, mAlloc2([]int64{10, 10}, []int64{10, 10}),
+		[]map[wallet.BackendID]wire.Address{w.P[a].WireID, w.P[b].WireID}, w.P[a].nextNonce())
+	if err != nil {
+		return nil, nil, err
+	}
+	sc.seq++
+	prop.ProposalID = mFixedID(0xA0 + sc.seq)
+	ctx, cancel := context.WithTimeout(context.Background(), 10*time.Second)
+	defer cancel()
+	nb := len(w.P[b].Chans)
+	ca, err := w.P[a].C.ProposeChannel(ctx, prop)
+	if err != nil {
+		return nil, nil, err
+	}
+	vsched.WaitCond("await-channel", func() bool { return len(w.P[b].Chans) > nb })
+	return ca, w.P[b].Chans[len(w.P[b].Chans)-1], nil
+}
+
 func mFlipID(id channel.ID) channel.ID { id[7] ^= 0x5a; return id }
 
 func mFixedID(b byte) (id [32]byte) {
@@ -251,11 +289,19 @@ func (sc *mScene) setup() error {
 		return nil
 	}
 	v0 := strings.HasSuffix(pt, "-v0")
+	sc.two = strings.HasPrefix(pt, "open2") || strings.HasPrefix(pt, "hub2") // channels over two assets
 	var err error
-	if v0 {
+	switch {
+	case sc.two && v0:
+		sc.vIdx = 0
+		sc.led, sc.mled, err = sc.openLedger2(0, 1)
+	case sc.two:
+		sc.vIdx = 1
+		sc.mled, sc.led, err = sc.openLedger2(1, 0)
+	case v0:
 		sc.vIdx = 0
 		sc.led, sc.mled, err = w.OpenLedger(0, 1, 10, 10)
-	} else {
+	default:
 		sc.vIdx = 1
 		sc.mled, sc.led, err = w.OpenLedger(1, 0, 10, 10)
 	}
@@ -269,7 +315,7 @@ func (sc *mScene) setup() error {
 	}
 	base := strings.TrimSuffix(strings.TrimSuffix(pt, "-v0"), "-v1")
 	switch base {
-	case "open":
+	case "open", "open2":
 	case "paid":
 		if err := upd(sc.mled, pay(int(sc.mled.Idx()), 1, false)); err != nil {
 			return fmt.Errorf("payment: %w", err)
@@ -363,13 +409,23 @@ func (sc *mScene) setup() error {
 		vsched.Sleep(time.Second)
 	case "hub-fund", "hub-fund2", "hub-settle", "hub-settle2", "hub-fund-quiet", "hub-settle-quiet", "hub-two":
 		return sc.setupHub(base)
-	case "hub-collude":
+	case "hub-collude", "hub2-collude":
 		// the hub with its two ledger channels; M and B are real only for the set-up and the probes, the
 		// harness speaks for both of them
 		sc.B = w.P[2]
-		if sc.mledB, sc.ledB, err = w.OpenLedger(2, 0, 10, 10); err != nil {
+		if sc.two {
+			sc.mledB, sc.ledB, err = sc.openLedger2(2, 0)
+		} else {
+			sc.mledB, sc.ledB, err = w.OpenLedger(2, 0, 10, 10)
+		}
+		if err != nil {
 			return fmt.Errorf("opening the ledger channel B - hub: %w", err)
 		}
+		// what the hub may accept automatically: the honest funding of the virtual channel on either parent
+		hi := sc.hubPairInit()
+		sc.pend = append(sc.pend,
+			pendingAuto{Kind: "vfund", ID: hi.ID, Bals: hi.Balances.Clone(), IndexMap: []channel.Index{0, 1}, On: sc.led.ID()},
+			pendingAuto{Kind: "vfund", ID: hi.ID, Bals: hi.Balances.Clone(), IndexMap: []channel.Index{1, 0}, On: sc.ledB.ID()})
 	default:
 		return fmt.Errorf("unknown history point %q", pt)
 	}
